@@ -143,12 +143,12 @@ def rule_status_consumed(ck):
                     if int(v) == vidx.get("Exited"):
                         # handled in place: TraceeCtl::remove follows on this arm (and only on this arm)
                         rm = {r.bb for r in f.calls() if r.name == TC + "::remove"}
-                        here = reach_with_flags(f, x, stop=rm)
+                        here = reach_with_flags(f, x, stop=rm, prog=prog)
                         other = set()
                         for v2, x2 in t["arms"]:
                             if x2 != x:
-                                other |= reach_with_flags(f, x2, stop=rm)
-                        other |= reach_with_flags(f, t["otherwise"], stop=rm)
+                                other |= reach_with_flags(f, x2, stop=rm, prog=prog)
+                        other |= reach_with_flags(f, t["otherwise"], stop=rm, prog=prog)
                         if (here & rm) - other:
                             ident.add(x)
         redefs = {x.bb for g, x in sites if g is f}
@@ -156,7 +156,7 @@ def rule_status_consumed(ck):
         rets = set(f.return_blocks())
         bad_ret, bad_redef = set(), set()
         for st in starts:
-            reach = reach_with_flags(f, st, avoid=consume | ident | errs, stop=redefs | rets)
+            reach = reach_with_flags(f, st, avoid=consume | ident | errs, stop=redefs | rets, prog=prog)
             bad_ret |= reach & rets
             bad_redef |= (reach & redefs) - ({st} if st in redefs else set())
         how = []
@@ -165,6 +165,20 @@ def rule_status_consumed(ck):
         if bad_redef:
             how.append("the next wait")
         ck.ob("mpt.status_consumed", f"{key}/status-handled-or-identified", bool(starts) and not how, (f"{' and '.join(how)} reachable with the status neither handed to apply_new_status nor identified as Stopped / PTRACE_EVENT_STOP" if how else f"{len(consume)} hand-over site(s), {len(ident)} identifying arm(s)"), f.loc(c.bb), what="a ptrace event other than the awaited PTRACE_EVENT_STOP can be swallowed")
+
+
+def rule_no_phantom(ck):
+    """a thread registered by apply_new_status is not left registered on an error exit"""
+    prog = ck.prog
+    ck.rule("pair.thread_registered", "apply_new_status (\"after this function ends tracee_ctl must be in consistent state\"): after TraceeCtl::add(tid), no error exit is reachable without TraceeCtl::remove(tid) — a thread that turned out to be gone must not stay in the thread list (the list equals the kernel's live threads)")
+    f = ck.anchor(TR + "::apply_new_status")
+    adds = [c for c in f.calls() if c.name == TC + "::add"]
+    ck.floor("pair.thread_registered", "TraceeCtl::add sites in apply_new_status", len(adds), 3)
+    rm = {c.bb for c in f.calls() if c.name == TC + "::remove"}
+    for key, c in keyed_sites(adds, lambda c: "add"):
+        _normal, err_held = held_at_exits(f, c.bb, rm)
+        origins = sorted({short(qmark_origin(f, e)) for e in err_held})
+        ck.ob("pair.thread_registered", f"{key}/removed-on-error-exits", not origins, f"error exits via {origins} leave the thread registered", f.loc(c.bb), what="a thread that was registered and then found to be gone stays in the thread list (and the stop fails)")
 
 
 def rule_ownership(ck):
@@ -262,6 +276,7 @@ def rule_guard(ck):
 
 def run(ck):
     rule_status_consumed(ck)
+    rule_no_phantom(ck)
     rule_group_stop_first(ck)
     rule_bookkeeping(ck)
     rule_ownership(ck)
